@@ -274,52 +274,127 @@ pub fn stress(h: &Handle, kv: &HashMap<String, u64>, hang_ms: u64) -> String {
     let nkeys = *kv.get("keys").unwrap_or(&3);
     let seed = *kv.get("seed").unwrap_or(&1);
     let big = *kv.get("big").unwrap_or(&20);
+    // percentage of deletes among a writer's operations
+    let dels = *kv.get("dels").unwrap_or(&25);
+    // spin=1: readers do not stop after `ops` gets but keep reading, as fast as they can, until every writer has
+    // finished; they record a get when its result differs from the one they recorded last, and otherwise now and
+    // then (leaving reads out of a history keeps it linearizable if it was, so the check stays sound)
+    let spin = *kv.get("spin").unwrap_or(&0) != 0;
+    // a spinning reader also records a get when `every_us` microseconds have passed since the one it recorded last
+    let every_ns = (*kv.get("every_us").unwrap_or(&100) as u128) * 1000;
+    // with spin=1 a writer keeps writing after its `ops` operations until `minms` ms have passed (at most 20 x ops)
+    let minms = *kv.get("minms").unwrap_or(&0) as u128;
+    let writers_left = Arc::new(AtomicU64::new(writers));
     let t0 = Instant::now();
     let hist: Arc<Mutex<Vec<String>>> = Arc::new(Mutex::new(vec![]));
     let progress = Arc::new(AtomicU64::new(0));
     STOP.store(false, Ordering::SeqCst);
     let mut joins = vec![];
+    // all worker threads start their first operation together (a thread that is spawned first must not finish
+    // its whole script before the others exist)
+    let start = Arc::new(std::sync::Barrier::new((writers + readers) as usize));
     for tid in 0..(writers + readers) {
         let h = h.clone();
         let hist = hist.clone();
         let progress = progress.clone();
         let is_writer = tid < writers;
+        let start = start.clone();
+        let writers_left = writers_left.clone();
         joins.push(std::thread::spawn(move || {
+            start.wait();
             let mut rng = Rng(seed.wrapping_mul(0x9E3779B97F4A7C15) ^ (tid + 1).wrapping_mul(0xD1B54A32D192ED03) | 1);
-            let mut local = vec![];
-            for seq in 0..ops {
-                let key = format!("k{}", rng.next() % nkeys);
+            // the loop does as little as possible besides the store call (keys are made up front, results are
+            // formatted afterwards), so that threads really contend inside the store
+            enum R {
+                Unit(Result<(), &'static str>),
+                Flag(Result<bool, &'static str>),
+                Val(Result<Option<Bytes>, &'static str>),
+                Panic,
+            }
+            let keys: Vec<(String, Bytes)> = (0..nkeys).map(|i| (format!("k{}", i), Bytes::from(format!("k{}", i)))).collect();
+            let mut raw: Vec<(&'static str, usize, String, u128, u128, R)> = Vec::with_capacity(ops as usize);
+            let mut last_rec: Option<Option<Bytes>> = None;
+            let mut last_rec_at: u128 = 0;
+            let mut seq = 0u64;
+            loop {
+                if !spin {
+                    if seq >= ops {
+                        break;
+                    }
+                } else if is_writer {
+                    if (seq >= ops && t0.elapsed().as_millis() >= minms) || seq >= ops * 20 {
+                        break;
+                    }
+                } else if writers_left.load(Ordering::Relaxed) == 0 {
+                    break;
+                }
+                let ki = (rng.next() % nkeys) as usize;
+                let key = keys[ki].1.clone();
                 let r = rng.next() % 100;
                 let (kind, arg, val) = if is_writer {
-                    if r < 25 {
-                        ("del", "-".to_string(), None)
+                    if r < dels {
+                        ("del", String::new(), None)
                     } else {
                         let size = if rng.next() % 100 < big { [8191usize, 8192, 9000, 20000][(rng.next() % 4) as usize] } else { 8 + (rng.next() % 40) as usize };
-                        ("put", format!("{}.{}", tid, seq), Some(stress_value(tid, seq, size)))
+                        ("put", format!("{}.{}", tid, seq), Some(Bytes::from(stress_value(tid, seq, size))))
                     }
                 } else {
-                    ("get", "-".to_string(), None)
+                    ("get", String::new(), None)
                 };
                 let inv = t0.elapsed().as_nanos();
                 let res = catch_unwind(AssertUnwindSafe(|| match kind {
-                    "put" => match h.set(Bytes::from(key.clone()), Bytes::from(val.clone().unwrap())) {
-                        Ok(()) => "ok".to_string(),
-                        Err(e) => format!("err:{}", err_kind(&e)),
-                    },
-                    "del" => match h.del(Bytes::from(key.clone())) {
-                        Ok(b) => b.to_string(),
-                        Err(e) => format!("err:{}", err_kind(&e)),
-                    },
-                    _ => match KeyValueStorage::get(&h, Bytes::from(key.clone())) {
-                        Ok(Some(v)) => value_id(&v),
-                        Ok(None) => "nil".into(),
-                        Err(e) => format!("err:{}", err_kind(&e)),
-                    },
+                    "put" => R::Unit(h.set(key, val.unwrap()).map_err(|e| err_kind(&e))),
+                    "del" => R::Flag(h.del(key).map_err(|e| err_kind(&e))),
+                    _ => R::Val(KeyValueStorage::get(&h, key).map_err(|e| err_kind(&e))),
                 }))
-                .unwrap_or_else(|_| "panic".into());
+                .unwrap_or(R::Panic);
                 let resp = t0.elapsed().as_nanos();
-                local.push(format!("{} {} {} {} {} {} {}", tid, kind, key, arg, inv, resp, res));
-                progress.fetch_add(1, Ordering::SeqCst);
+                seq += 1;
+                if !is_writer && spin {
+                    let keep = match &res {
+                        R::Val(Ok(v)) => {
+                            let changed = last_rec.as_ref() != Some(v);
+                            if changed || resp - last_rec_at >= every_ns {
+                                last_rec = Some(v.clone());
+                                last_rec_at = resp;
+                                true
+                            } else {
+                                false
+                            }
+                        }
+                        _ => true,
+                    };
+                    if keep && raw.len() < (ops * 40) as usize {
+                        raw.push((kind, ki, arg, inv, resp, res));
+                    }
+                    if seq <= ops {
+                        progress.fetch_add(1, Ordering::Relaxed);
+                    }
+                    continue;
+                }
+                raw.push((kind, ki, arg, inv, resp, res));
+                progress.fetch_add(1, Ordering::Relaxed);
+            }
+            if is_writer {
+                writers_left.fetch_sub(1, Ordering::SeqCst);
+            } else if spin {
+                // the watchdog counts `ops` steps per thread
+                while seq < ops {
+                    seq += 1;
+                    progress.fetch_add(1, Ordering::Relaxed);
+                }
+            }
+            let mut local = Vec::with_capacity(raw.len());
+            for (kind, ki, arg, inv, resp, res) in raw {
+                let res = match res {
+                    R::Unit(Ok(())) => "ok".to_string(),
+                    R::Flag(Ok(b)) => b.to_string(),
+                    R::Val(Ok(Some(v))) => value_id(&v),
+                    R::Val(Ok(None)) => "nil".into(),
+                    R::Unit(Err(e)) | R::Flag(Err(e)) | R::Val(Err(e)) => format!("err:{}", e),
+                    R::Panic => "panic".into(),
+                };
+                local.push(format!("{} {} {} {} {} {} {}", tid, kind, keys[ki].0, if arg.is_empty() { "-" } else { &arg }, inv, resp, res));
             }
             hist.lock().unwrap().extend(local);
         }));
